@@ -680,7 +680,7 @@ func execDLEQ(p *Plan, run *core.Run) {
 	}
 	ok := false
 	pan, v, st := core.Try(func() {
-		if n == 1 {
+		if len(bi) == 1 && len(kbi) == 1 {
 			ok = dleq.Verifier{Params: vparams}.Verify(a, ka, bi[0], kbi[0], &vp)
 		} else {
 			ok = dleq.Verifier{Params: vparams}.VerifyBatch(a, ka, bi, kbi, &vp)
